@@ -73,21 +73,20 @@ func (parserPanic) Error() string { return "parser panicked" }
 
 var errParserPanic = parserPanic{}
 
-// Load returns every parseable object of the corpus, sorted by name.
+// Load returns every parseable object of the corpus (v3/testdata and its
+// sub-directories: code_signing/, smime/ …), sorted by name. A seed's name is
+// its path relative to v3/testdata.
 func Load() []Seed {
 	dir := filepath.Join(RepoDir(), "v3", "testdata")
-	ents, err := os.ReadDir(dir)
-	if err != nil {
-		panic(err)
-	}
 	var out []Seed
-	for _, e := range ents {
-		if e.IsDir() {
-			continue
+	_ = filepath.WalkDir(dir, func(path string, e os.DirEntry, err error) error {
+		if err != nil || e.IsDir() {
+			return nil
 		}
-		data, err := os.ReadFile(filepath.Join(dir, e.Name()))
+		name, _ := filepath.Rel(dir, path)
+		data, err := os.ReadFile(path)
 		if err != nil {
-			continue
+			return nil
 		}
 		s := string(data)
 		switch {
@@ -101,7 +100,7 @@ func Load() []Seed {
 				}
 				if blk.Type == "CERTIFICATE" {
 					if _, err := ParseCert(blk.Bytes); err == nil {
-						out = append(out, Seed{e.Name(), Cert, blk.Bytes})
+						out = append(out, Seed{name, Cert, blk.Bytes})
 					}
 					break
 				}
@@ -110,19 +109,20 @@ func Load() []Seed {
 			blk, _ := pem.Decode(data)
 			if blk != nil {
 				if _, err := ParseCRL(blk.Bytes); err == nil {
-					out = append(out, Seed{e.Name(), CRL, blk.Bytes})
+					out = append(out, Seed{name, CRL, blk.Bytes})
 				}
 			}
 		default:
 			raw, err := base64.StdEncoding.DecodeString(strings.TrimSpace(s))
 			if err != nil {
-				continue
+				return nil
 			}
 			if _, err := ParseOCSP(raw); err == nil {
-				out = append(out, Seed{e.Name(), OCSP, raw})
+				out = append(out, Seed{name, OCSP, raw})
 			}
 		}
-	}
+		return nil
+	})
 	sort.Slice(out, func(i, j int) bool { return out[i].Name < out[j].Name })
 	return out
 }
